@@ -10,7 +10,7 @@ use neurons::objective::Function;
 
 pub fn meta(_ctx: &Ctx) -> Meta {
     Meta {
-        rule: "7 objectives x clamps {none,(-0.2,0.2),(-1,1),(0,0.5),(0.3,0.3),(-inf,0.2),(-0.2,inf),(-inf,inf)} x ranks {vector n<=3; 1x1xn, nx1x1, 1xnx1; 2x2x2} x ALL tuples of (prediction,target) pairs over the in-domain alphabets incl. boundaries: regression {-2,-0.5,0,0.5,1,3}^2, probabilistic predictions {0,1e-7,1e-6,0.25,0.5,1-1e-6,1} x targets {0,0.25,0.5,1}. Oracles: documented loss/gradient formulas (f64), gradient shape = prediction shape, clamped gradient = clamp(unclamped) bit-exact, CxHxW result = vector result bit-exact, dual-number derivative of the reference loss for AE/MSE/BCE/KL away from kinks and the eps-clamp, loss finite. Non-trivial = tuple with >=2 distinct pairs or a boundary value".into(),
+        rule: "7 objectives x clamps {none,(-0.2,0.2),(-1,1),(0,0.5),(0.3,0.3),(-inf,0.2),(-0.2,inf),(-inf,inf)} x ranks {vector n<=3; 1x1xn, nx1x1, 1xnx1; 2x2x2; vectors of 9, 10, 17, 40, 100 and tensors 1x3x3, 3x3x3, 2x4x5 with every rotation of the pair list} x ALL tuples of (prediction,target) pairs over the in-domain alphabets incl. boundaries: regression {-2,-0.5,0,0.5,1,3}^2, probabilistic predictions {0,1e-7,1e-6,0.25,0.5,1-1e-6,1} x targets {0,0.25,0.5,1}. Oracles: documented loss/gradient formulas (f64), gradient shape = prediction shape, clamped gradient = clamp(unclamped) bit-exact, CxHxW result = vector result bit-exact, dual-number derivative of the reference loss for AE/MSE/BCE/KL away from kinks and the eps-clamp, loss finite. Non-trivial = tuple with >=2 distinct pairs or a boundary value".into(),
         bound: "n <= 3 complete; 2x2x2 with all 36 / 28 rotations of the pair list".into(),
         exhaustive: true,
         assumptions: vec![
@@ -65,6 +65,9 @@ fn shape_of(name: &str, n: usize) -> Dims {
         "nx1x1" => Dims::Chw(n, 1, 1),
         "1xnx1" => Dims::Chw(1, n, 1),
         "2x2x2" => Dims::Chw(2, 2, 2),
+        "1x3x3" => Dims::Chw(1, 3, 3),
+        "3x3x3" => Dims::Chw(3, 3, 3),
+        "2x4x5" => Dims::Chw(2, 4, 5),
         _ => panic!("shape {}", name),
     }
 }
@@ -226,6 +229,11 @@ pub fn cases() -> Vec<Kv> {
             for stride in [1usize, 5, 7] {
                 let list = (0..8).map(|e| ((rot + e * stride) % m).to_string()).collect::<Vec<_>>().join(",");
                 out.push(Kv::new().put("obj", o.name()).put("shape", "2x2x2").put("pairs", &list));
+                // longer vectors (a 10-class head, 17, 40, 100) and larger tensors: every rotation of the pair list
+                for (shape, len) in [("vec", 9usize), ("vec", 10), ("vec", 17), ("vec", 40), ("vec", 100), ("1x3x3", 9), ("3x3x3", 27), ("2x4x5", 40)] {
+                    let list = (0..len).map(|e| ((rot + e * stride) % m).to_string()).collect::<Vec<_>>().join(",");
+                    out.push(Kv::new().put("obj", o.name()).put("shape", shape).put("pairs", &list));
+                }
             }
         }
     }
